@@ -190,7 +190,9 @@ Definition target_base (dest : path) (source : path) (dest_is_dir no_target_dir 
   match last_comp source with
   | None => None                      (* "Failed to find source directory name." *)
   | Some c =>
-      if dest_is_dir && negb no_target_dir then
+      (* like cp, a source that ends in `..` is copied into the destination ITSELF: dest/.. is the destination's parent,
+         not a place below it (repair of a defect found in round 7) *)
+      if dest_is_dir && negb no_target_dir && negb (comp_eqb c CParent) then
         Some (join dest (match c with CRoot => [CRoot] | CCur => [CCur] | CParent => [CParent] | CNormal n => [CNormal n] end))
       else Some dest
   end.
